@@ -36,6 +36,8 @@ def also_counts_for(f):
             out.update({"C13", "C17"})
         if f.get("driver") == "str_driver":
             out.add("C14")
+    if name == "FallibleReserveReportsError":
+        out.add("C09")
     if name == "LiveBlocksIntact":
         out.update({"C01", "C12"} if op in ALLOCATOR_API_OPS else {"C01"})
     return out
@@ -56,7 +58,7 @@ def arena_corpus(tier, seed, gens, profiles=("dbg", "rel")):
 
 ARENA_GENS = {
     "C01": ["history", "offset", "random", "trywith", "fault"],
-    "C02": ["history", "random", "uniform", "fault"],
+    "C02": ["history", "random", "uniform", "fault", "zinit"],
     "C03": ["history", "random", "fault"],
     "C04": ["offset", "history", "trywith", "fault"],
     "C06": ["history", "random", "uniform", "limit"],
@@ -64,7 +66,7 @@ ARENA_GENS = {
     "C08": ["history", "random", "fault", "limit"],
     "C09": ["history", "random", "fault"],
     "C10": ["history", "random", "uniform"],
-    "C11": ["history", "random", "trywith", "fault"],
+    "C11": ["history", "random", "trywith", "fault", "zinit"],
     "C12": ["history", "random", "fault"],
     "C18": ["history", "random", "volume", "limit"],
 }
@@ -156,7 +158,8 @@ def plan_for(pid, tier, seed):
         from . import borrow
         return dict(level="model_checking", traces=jobs, special=[borrow.run_c20],
                     mc=[dict(module="Threads", cfg="Threads", workers=8, timeout=900)],
-                    assumptions=["TLC", "footer-store hook (__verif::footer_store) sees every store into a chunk footer",
+                    assumptions=["TLC", "footer-store hook (__verif::footer_store) sees every store of a bump pointer; every other store into the shared static empty chunk "
+                                 "is seen by the mprotect write guard while an arena that holds no memory is operated on",
                                  "data races only on crate-level shared state (chunk footers, the static empty chunk); reads are not hooked"])
     if pid == "C14":
         return dict(level="model_checking", mc=[dict(module="StrModel", cfg="StrModel", workers=4, timeout=900)],
@@ -201,6 +204,9 @@ def plan_for(pid, tier, seed):
         traces = traces + tj("suite", "repo-tests", tier, "dbg", 0, 4, ["ArenaMonitor", "ArenaTrace"], cap=3000 if tier == "quick" else 6000)
         # ... and the collections as clients of the arena
         traces = traces + client_corpus(tier, seed)
+        if pid == "C09":
+            # "fallible methods never panic" also for the collections' try_reserve family (same formula as C13)
+            traces = traces + tj("coll_driver", "single", tier, "dbg", seed, 2 if tier == "quick" else 6, ["CollTrace"], max_events=25000, monitors_arena=ARENA_VIEW)
         if pid == "C18":
             # the collections' amortised growth on top of the arena's
             traces = traces + coll_corpus(tier, seed, ["growth"])
